@@ -203,8 +203,8 @@ theorem wrong_number_answer_reverts_unjustified :
     let x2 : Blk := ⟨2, 3, 2, true⟩
     let es : List Ev := [.reorgDetected 2 (some ⟨1, 99⟩), .iter none true, .iter (some x2) true]
     EnvOK es ∧
-    (Impl.run Cfg.asFound (Impl.init [x1, g]) es).2 = [Obs.reverted 1 2, Obs.reverted 0 1] ∧
-    rejectOf (Spec.run false (Spec.init [x1, g]) ((Impl.init [x1, g]).trace Cfg.asFound es)) =
+    (Impl.run Cfg.original (Impl.init [x1, g]) es).2 = [Obs.reverted 1 2, Obs.reverted 0 1] ∧
+    rejectOf (Spec.run false (Spec.init [x1, g]) ((Impl.init [x1, g]).trace Cfg.original es)) =
       some .revertNotJustified ∧
     (Impl.run Cfg.fixed (Impl.init [x1, g]) es).2 = [Obs.reverted 1 2] ∧
     rejectOf (Spec.run true (Spec.init [x1, g]) ((Impl.init [x1, g]).trace Cfg.fixed es)) = none := by
@@ -242,9 +242,9 @@ theorem stale_answer_reverts_live_block :
     let a2 : Blk := ⟨2, 11, 10, true⟩
     let es : List Ev := [.deliver 2 a2 false, .iter (some b1) true]
     EnvOK es ∧
-    (Impl.run Cfg.asFound (Impl.init [b1, g]) es).2 = [Obs.reverted 1 20] ∧
-    rejectOf (Spec.run false (Spec.init [b1, g]) ((Impl.init [b1, g]).trace Cfg.asFound es)) = none ∧
-    rejectOf (Spec.run true (Spec.init [b1, g]) ((Impl.init [b1, g]).trace Cfg.asFound es)) =
+    (Impl.run Cfg.original (Impl.init [b1, g]) es).2 = [Obs.reverted 1 20] ∧
+    rejectOf (Spec.run false (Spec.init [b1, g]) ((Impl.init [b1, g]).trace Cfg.original es)) = none ∧
+    rejectOf (Spec.run true (Spec.init [b1, g]) ((Impl.init [b1, g]).trace Cfg.original es)) =
       some .revertNotJustified ∧
     (Impl.run Cfg.fixed (Impl.init [b1, g]) es).2 = [] := by
   exact ⟨⟨by decide, rfl, trivial⟩, by decide, by decide, by decide, by decide⟩
@@ -279,7 +279,7 @@ theorem failed_revert_makes_reorg_range_wrong :
     let y2 : Blk := ⟨2, 30, 2, true⟩
     let es : List Ev := [.reorgDetected 2 (some ⟨0, 77⟩), .iter (some ⟨1, 55, 1, true⟩) false,
       .deliver 2 y2 false]
-    (Impl.run Cfg.asFound (Impl.init [x1, g]) es).2 =
+    (Impl.run Cfg.original (Impl.init [x1, g]) es).2 =
       [Obs.revertFailed 1 2, Obs.stored 2 30, Obs.reorg ⟨1, 2, 1, 2⟩, Obs.newHead 2 30] := by
   decide
 
@@ -316,19 +316,19 @@ theorem no_convergence_remote_height_zero :
     let g : Blk := ⟨0, 1, 0, true⟩
     let x1 : Blk := ⟨1, 2, 1, true⟩
     let g' : Blk := ⟨0, 50, 0, true⟩
-    (∀ k, (runRounds Cfg.asFound [g'] k ⟨[x1, g], none⟩).1.chain = [x1, g]) ∧
+    (∀ k, (runRounds Cfg.original [g'] k ⟨[x1, g], none⟩).1.chain = [x1, g]) ∧
     (runRounds Cfg.fixed [g'] 4 ⟨[x1, g], none⟩).1.chain = [g'] := by
   refine ⟨?_, by decide⟩
   intro k
   induction k with
   | zero => rfl
   | succ k ih =>
-    have hr : round Cfg.asFound [⟨0, 50, 0, true⟩] ⟨[⟨1, 2, 1, true⟩, ⟨0, 1, 0, true⟩], none⟩ =
+    have hr : round Cfg.original [⟨0, 50, 0, true⟩] ⟨[⟨1, 2, 1, true⟩, ⟨0, 1, 0, true⟩], none⟩ =
         (⟨[⟨1, 2, 1, true⟩, ⟨0, 1, 0, true⟩], none⟩, []) := by decide
-    have hstep : (runRounds Cfg.asFound [⟨0, 50, 0, true⟩] (k + 1)
+    have hstep : (runRounds Cfg.original [⟨0, 50, 0, true⟩] (k + 1)
           ⟨[⟨1, 2, 1, true⟩, ⟨0, 1, 0, true⟩], none⟩).1 =
-        (runRounds Cfg.asFound [⟨0, 50, 0, true⟩] k
-          (round Cfg.asFound [⟨0, 50, 0, true⟩] ⟨[⟨1, 2, 1, true⟩, ⟨0, 1, 0, true⟩], none⟩).1).1 := rfl
+        (runRounds Cfg.original [⟨0, 50, 0, true⟩] k
+          (round Cfg.original [⟨0, 50, 0, true⟩] ⟨[⟨1, 2, 1, true⟩, ⟨0, 1, 0, true⟩], none⟩).1).1 := rfl
     rw [hstep, hr]; exact ih
 
 /-! ## the uint64 subtractions -/
@@ -370,7 +370,7 @@ example :
     (Impl.run Cfg.fixed (Impl.init []) es).2 =
       [.stored 0 1, .newHead 0 1, .stored 1 2, .newHead 1 2, .reverted 1 2,
        .stored 1 12, .reorg ⟨1, 2, 1, 2⟩, .newHead 1 12, .stored 2 13, .newHead 2 13] ∧
-    (Impl.run Cfg.asFound (Impl.init []) es).2 = (Impl.run Cfg.fixed (Impl.init []) es).2 := by
+    (Impl.run Cfg.original (Impl.init []) es).2 = (Impl.run Cfg.fixed (Impl.init []) es).2 := by
   refine ⟨trivial, ?_, by decide, by decide⟩
   exact ⟨by decide, by decide, by decide, rfl, rfl, by decide, by decide, trivial⟩
 
@@ -379,8 +379,8 @@ example :
     let g : Blk := ⟨0, 1, 0, true⟩
     let x1 : Blk := ⟨1, 2, 1, true⟩
     let y1 : Blk := ⟨1, 12, 1, true⟩
-    (runRounds Cfg.asFound [y1, g] 5 ⟨[x1, g], none⟩).1.chain = [y1, g] ∧
-    (runRounds Cfg.asFound [y1, g] 5 ⟨[x1, g], none⟩).2 =
+    (runRounds Cfg.original [y1, g] 5 ⟨[x1, g], none⟩).1.chain = [y1, g] ∧
+    (runRounds Cfg.original [y1, g] 5 ⟨[x1, g], none⟩).2 =
       [.reverted 1 2, .stored 1 12, .reorg ⟨1, 2, 1, 2⟩, .newHead 1 12] := by decide
 
 end Juno.C06.Props
